@@ -41,6 +41,8 @@ func main() {
 		os.Exit(wsfuzzMain(os.Args[2:]))
 	case "mdnsfuzz":
 		os.Exit(mdnsfuzzMain(os.Args[2:]))
+	case "datapipe":
+		os.Exit(datapipeMain(os.Args[2:]))
 	case "regrace":
 		os.Exit(regraceMain(os.Args[2:]))
 	case "connstep":
